@@ -29,18 +29,24 @@ func (a Arch) MarshalControl() (string, error) {
 }
 
 func (a Arch) String() string {
-	/* ABI-OS-CPU -- gnu-linux-amd64 */
-	els := []string{}
-	if a.ABI != "any" && a.ABI != "all" && a.ABI != "gnu" && a.ABI != "" {
-		els = append(els, a.ABI)
-	}
+	/* ABI-OS-CPU -- gnu-linux-amd64. Write the shortest name that
+	 * ParseArch reads back as the very same triple. */
+	cpuIsPlain := !strings.Contains(a.CPU, "-")
+	cpuIsWildcard := a.CPU == "any" || a.CPU == "all"
 
-	if a.OS != "any" && a.OS != "all" && a.OS != "linux" {
-		els = append(els, a.OS)
+	if a.ABI == a.OS && a.OS == a.CPU && cpuIsWildcard {
+		/* `any` and `all` */
+		return a.CPU
 	}
-
-	els = append(els, a.CPU)
-	return strings.Join(els, "-")
+	if a.ABI == "gnu" && a.OS == "linux" && !cpuIsWildcard && cpuIsPlain {
+		/* `amd64` is implicitly gnu-linux-amd64 */
+		return a.CPU
+	}
+	if (a.ABI == "any" || a.ABI == "") && cpuIsPlain {
+		/* `kfreebsd-amd64`, `linux-any`, `any-amd64` */
+		return a.OS + "-" + a.CPU
+	}
+	return a.ABI + "-" + a.OS + "-" + a.CPU
 }
 
 func (set ArchSet) String() string {
